@@ -27,9 +27,9 @@ inductive ASt | norm | esc | oct (k acc : Nat)
 
 def stepNorm (c : Char) : ASt × Option Str := if c = '\\' then (.esc, some []) else (.norm, some [c])
 
-/-- the character after a backslash. brush: `\0` is followed by up to three more octal digits;
-`\1`…`\7` (and bash's `\0`) by up to two -/
-def stepEsc (bash : Bool) (e : Char) : ASt × Option Str :=
+/-- the character after a backslash. An octal escape has at most three digits in all (`\0` included),
+in brush as in bash -/
+def stepEsc (_bash : Bool) (e : Char) : ASt × Option Str :=
   if e = 'a' then (.norm, emitByte 7)
   else if e = 'b' then (.norm, emitByte 8)
   else if e = 'e' ∨ e = 'E' then (.norm, emitByte 27)
@@ -41,7 +41,7 @@ def stepEsc (bash : Bool) (e : Char) : ASt × Option Str :=
   else if e = '\\' ∨ e = '\'' ∨ e = '"' ∨ e = '?' then (.norm, some [e])
   else if e = 'c' ∨ e = 'x' ∨ e = 'u' ∨ e = 'U' then (.norm, none)
   else match oct? e with
-    | some v => (.oct (if e = '0' ∧ bash = false then 3 else 2) v, some [])
+    | some v => (.oct 2 v, some [])
     | none => (.norm, some ['\\', e])
 
 def step (bash : Bool) : ASt → Char → ASt × Option Str
